@@ -126,7 +126,7 @@ Definition Ktimer (s : me) (k : nat) (t : timer) : Prop :=
             (0 <= recov s ->
                stamp < t_due t /\
                (t_st t = Firing -> t_due t <= now s) /\
-               (e_last e = stamp -> e_st e = Recovering)).
+               (e_last e = stamp -> e_st e = Recovering /\ e_tmr e = Some k)).
 
 Record TH (s : me) (skip : option nat) : Prop := mkTH {
   th_T : forall c e, nth_error (heap s) c = Some e -> Tcell s c e;
@@ -200,9 +200,11 @@ Lemma TH_sched s skip c e :
   e_st e = Recovering ->
   (forall k t, e_tmr e = Some k -> nth_error (timers s) k = Some t -> t_st t <> Pending) ->
   recov s <> 0 ->
+  (0 <= recov s -> forall k t stamp, nth_error (timers s) k = Some t ->
+     t_kind t = TRec c stamp -> t_st t = Firing -> e_last e <> stamp) ->
   TH (sched_res s c e) None.
 Proof.
-  intros [HT HR HL HN HK] Hskip He Hrec Hnp Hr0. unfold get_ep in He.
+  intros [HT HR HL HN HK] Hskip He Hrec Hnp Hr0 Hnf. unfold get_ep in He.
   constructor; unfold Tcell, Rcell, Ktimer, setState_res, sched_res; sim.
   - (* T *)
     intros c' e' H k Hk. rewrite nth_error_upd_nth in H. rewrite nth_error_snoc.
@@ -233,13 +235,18 @@ Proof.
     + inv H. cbn in Hkind. inv Hkind. cbn.
       rewrite nth_error_upd_nth, Nat.eqb_refl, He. cbn.
       eexists; split; [reflexivity|]. cbn. split; [reflexivity|].
-      intros Hr. pose proof (HL _ _ He). split; [lia|]. split; [discriminate|]. auto.
+      intros Hr. pose proof (HL _ _ He). split; [lia|]. split; [discriminate|].
+      intros _. split; [exact Hrec|reflexivity].
     + destruct (HK _ _ H c0 stamp Hkind Hact) as [e0 [H0 [K1 K2]]].
       rewrite nth_error_upd_nth. destruct (Nat.eqb_spec c c0) as [<-|Hne'].
       * rewrite H0. cbn. eexists; split; [reflexivity|]. cbn.
         assert (e0 = e) by congruence. subst e0.
-        split; [|exact K2].
-        intros Hp. exfalso. specialize (K1 Hp). exact (Hnp _ _ K1 H Hp).
+        split.
+        { intros Hp. exfalso. specialize (K1 Hp). exact (Hnp _ _ K1 H Hp). }
+        intros Hr. destruct (K2 Hr) as [A [B C]]. split; [exact A|]. split; [exact B|].
+        intros Hl. exfalso. destruct Hact as [Ha|Ha].
+        { exact (Hnp _ _ (K1 Ha) H Ha). }
+        { exact (Hnf Hr _ _ _ H Hkind Ha Hl). }
       * exists e0. auto.
 Qed.
 
@@ -1091,9 +1098,14 @@ Proof.
       { eapply heap_le_trans; apply heap_le_upd; intros; split; reflexivity. }
       assert (Tsa : TH sa (Some c)) by exact (TH_setState s None c ee Recovering T (or_introl eq_refl) G).
       split.
-      { apply (TH_sched sa (Some c) c e1 Tsa (or_intror eq_refl) G1 eq_refl); [|exact R0].
-        intros k t Hk Ht. cbn in Hk. unfold sa, setState_res in Ht; sim. rewrite Hk in Ht.
-        eapply stopped_not_pending; eauto. }
+      { apply (TH_sched sa (Some c) c e1 Tsa (or_intror eq_refl) G1 eq_refl); [|exact R0|].
+        - intros k t Hk Ht. cbn in Hk. unfold sa, setState_res in Ht; sim. rewrite Hk in Ht.
+          eapply stopped_not_pending; eauto.
+        - intros Hr k t stamp Ht Hkind Hf. unfold sa, setState_res in Ht; sim.
+          rewrite stop_opt_nth in Ht. apply option_map_Some in Ht. destruct Ht as [t0 [Ht0 ->]].
+          destruct (stops (e_tmr ee) k t0); [cbn in Hf; discriminate|].
+          destruct (th_K _ _ T k t0 Ht0 c stamp Hkind (or_intror Hf)) as [x [_ [_ K2]]].
+          destruct (K2 Hr) as [A [B _]]. specialize (B Hf). cbn. lia. }
       split; [apply noerr_app; [exact No|reflexivity]|].
       unfold AvailFacts. rewrite Eid.
       exists (with_tmr e1 (length (timers sa))). split.
@@ -1138,6 +1150,9 @@ Proof.
     apply (TH_sched s1 (Some (length (heap s))) _ e0 T1 (or_intror eq_refl) G1 eq_refl).
     + intros k t Hk. discriminate.
     + change (recov s1) with (recov s). lia.
+    + intros Hr k t stamp Ht Hkind Hf. exfalso. change (timers s1) with (timers s) in Ht.
+      destruct (th_K _ _ T k t Ht _ stamp Hkind (or_intror Hf)) as [x [Hx _]].
+      apply nth_error_Some_lt in Hx. lia.
   - set (e0 := mkEp id p Unavailable zero_time None). intros E; inv E.
     split; [reflexivity|]. split.
     { exists e0. split; [reflexivity|]. cbn. split; [reflexivity|split; [reflexivity|discriminate]]. }
@@ -1351,6 +1366,13 @@ Definition TimerKeeps (s s' : me) : Prop :=
   0 <= recov s -> forall k e, Mapped s k e -> e_st e = Available ->
   exists e', Mapped s' k e' /\ e_st e' = Available.
 
+(* a recovery window is ended only by the endpoint's own, latest recovery timer, when it is due *)
+Definition RecKeeps (s : me) (o : op) (s' : me) : Prop :=
+  0 <= recov s -> forall key e e', Mapped s key e -> e_st e = Recovering -> Mapped s' key e' ->
+  e_st e' = Recovering \/
+  exists k tk, o = OpEnd k /\ e_tmr e = Some k /\ nth_error (timers s) k = Some tk /\
+               t_due tk <= now s.
+
 Record StepOK (s : me) (o : op) (s' : me) (outs : list out) : Prop := mkSO {
   so_inv : Inv s';
   so_recov : recov s' = recov s;
@@ -1369,7 +1391,11 @@ Record StepOK (s : me) (o : op) (s' : me) (outs : list out) : Prop := mkSO {
   so_timer : match o with
              | OpBegin _ | OpEnd _ | OpAdvance _ => TimerKeeps s s'
              | _ => True
-             end
+             end;
+  so_rec : match o with
+           | OpBegin _ | OpEnd _ | OpAdvance _ => RecKeeps s o s'
+           | _ => True
+           end
 }.
 
 Lemma CurTrans_weaken inp c0 s : CurTrans true c0 s -> CurTrans inp c0 s.
@@ -1408,6 +1434,12 @@ Lemma TimerKeeps_same s s' : heap s' = heap s -> emap s' = emap s -> TimerKeeps 
 Proof.
   intros Hh Hm _ k e M A. destruct (same_eps s s' Hh Hm) as [_ [_ [_ [_ E]]]].
   exists e. split; auto. apply E. exact M.
+Qed.
+
+Lemma RecKeeps_same s o s' : heap s' = heap s -> emap s' = emap s -> WFs s -> RecKeeps s o s'.
+Proof.
+  intros Hh Hm W _ key e e' M R M'. destruct (same_eps s s' Hh Hm) as [_ [_ [_ [_ E]]]].
+  apply E in M'. left. rewrite (Mapped_fun _ _ _ _ W M' M). exact R.
 Qed.
 
 Lemma finish_mUC s1 s' o2 :
@@ -1469,6 +1501,7 @@ Proof.
   - destruct o as [| [|x r] | | |]; auto. destruct Ho.
   - destruct o; auto. destruct Ho.
   - destruct o; auto; apply TimerKeeps_same; auto.
+  - destruct o; auto; apply RecKeeps_same; auto; apply I.
 Qed.
 
 Lemma can_end_Some s k : can_end s k = true ->
@@ -1587,10 +1620,21 @@ Proof.
       * intros Hr key x [cx [Hin Hx]] Av.
         destruct (th_K _ _ T k tk Ek c stamp Kd (or_intror Stk)) as [e' [He' [_ K2]]].
         destruct (K2 Hr) as [_ [_ K3]]. unfold get_ep in G.
-        assert (e' = e) by congruence. subst e'. specialize (K3 Hst).
+        assert (e' = e) by congruence. subst e'. destruct (K3 Hst) as [K3r K3t].
         exists x. split; auto. exists cx. rewrite Hm3, Hh3. split; auto.
         unfold s2, setState_res, s1; sim. rewrite nth_error_upd_nth_neq; auto.
         intros <-. congruence.
+      * intros Hr key x x' [cx [Hin Hx]] Rx M'.
+        destruct (th_K _ _ T k tk Ek c stamp Kd (or_intror Stk)) as [e' [He' [_ K2]]].
+        destruct (K2 Hr) as [_ [K2b K3]]. unfold get_ep in G.
+        assert (e' = e) by congruence. subst e'. destruct (K3 Hst) as [K3r K3t].
+        destruct (Nat.eq_dec c cx) as [<-|Hne'].
+        { right. exists k, tk. assert (x = e) by congruence. subst x.
+          split; [reflexivity|]. split; [exact K3t|]. split; [exact Ek|]. exact (K2b Stk). }
+        { left. assert (M3 : Mapped s3 key x).
+          { exists cx. rewrite Hm3, Hh3. split; auto.
+            unfold s2, setState_res, s1; sim. rewrite nth_error_upd_nth_neq; auto. }
+          rewrite (Mapped_fun _ _ _ _ (inv_wf _ I') M' M3). exact Rx. }
     + (* switch timer *)
       destruct (run_switch s1) as [s2 o2] eqn:E2. intros E; inv E.
       destruct (run_switch_cases _ _ _ E2) as [RS ->].
@@ -1624,6 +1668,7 @@ Proof.
             rewrite decide_st_eq, <- hold_current_at. rewrite H, TA. reflexivity.
           - discriminate. }
         { apply TimerKeeps_same; reflexivity. }
+        { apply RecKeeps_same; auto; reflexivity. }
 Qed.
 
 (* ------------------------------------------------------------------------ *)
